@@ -103,7 +103,7 @@ func (f *Do) Call(s *slip.Scope, args slip.List, depth int) (result slip.Object)
 					return tr
 				case *GoTo:
 					for i = 2; i < len(args); i++ {
-						if args[i] == tr.Tag {
+						if slip.SameTag(args[i], tr.Tag) {
 							break
 						}
 					}
